@@ -17,7 +17,7 @@ func init() {
 			"(segmentStack.get, hence segmentStack.Get and everything that returns its result). A call of a further lookup on another (older) source that is control-dependent on the nil result " +
 			"of a conflating lookup is a violation: a tombstone or a Merge resolved against the newer section alone lets the older value resurface.",
 		Props: []string{"C10", "C08", "C01"},
-		Floor: 1,
+		Floor: 2,
 		Run:   ruleTomb,
 	})
 	register(&Rule{
@@ -34,7 +34,7 @@ func init() {
 			"dest.Mutate(op, …) in segmentStack.mergeInto (the producer of that stack) must be unable to pass a raw OperationMerge: every path from the raw cursor operation to the call passes " +
 			"the `op != OperationMerge` edge or rewrites op. The optimizeTail loop and the main loop are sibling paths of one function and must agree.",
 		Props: []string{"C08", "C19"},
-		Floor: 2,
+		Floor: 1,
 		Run:   ruleMrg1,
 	})
 	register(&Rule{
@@ -42,7 +42,7 @@ func init() {
 		Doc: "Exhaustiveness: every function that hands a value to a reader and branches on OperationDel (segmentStack.get, iterator.Current, iteratorSingle.Current) also has an " +
 			"OperationMerge branch that reaches the configured MergeOperator's FullMerge.",
 		Props: []string{"C08"},
-		Floor: 3,
+		Floor: 1,
 		Run:   ruleMrg3,
 	})
 	register(&Rule{
@@ -51,7 +51,7 @@ func init() {
 			"(newSegment, newBatch, loadBasicSegment) must initialise buf with a value that is non-nil on every path; a zero-length slice of a nil buf is nil and makes an empty value or a " +
 			"tombstone of the empty key invisible.",
 		Props: []string{"C19", "C01", "C04"},
-		Floor: 3,
+		Floor: 1,
 		Run:   ruleEnc5,
 	})
 }
@@ -220,88 +220,44 @@ func ruleTomb(c *Ctx) []*Ob {
 		if len(k1s) == 0 {
 			continue
 		}
-		derivesFromK1 := func(x ssa.Value) *ssa.Call {
-			var hit *ssa.Call
-			backSlice(x, func(v ssa.Value) bool {
-				if e, ok := v.(*ssa.Extract); ok && e.Index == 0 {
-					for _, k := range k1s {
-						if e.Tuple == ssa.Value(k) {
-							hit = k
-							return true
-						}
+		reported := map[*ssa.Call]bool{}
+		for _, k1 := range k1s {
+			// phase 1: the edges on which k1's value result was tested and found nil
+			var nilTargets []*ssa.BasicBlock
+			seenT := map[*ssa.BasicBlock]bool{}
+			walk(after(k1), walkOpts{origin: k1, originIdx: 0,
+				visit: func(i ssa.Instruction, t *tracker) bool { return i == ssa.Instruction(k1) },
+				edge: func(from, to *ssa.BasicBlock, label string, cond ssa.Value, onTrue bool, t *tracker) bool {
+					if label == "nil" && !seenT[to] {
+						seenT[to] = true
+						nilTargets = append(nilTargets, to)
 					}
-				}
-				return false
-			})
-			return hit
-		}
-		for _, b := range f.Blocks {
-			iff, ok := b.Instrs[len(b.Instrs)-1].(*ssa.If)
-			if !ok {
-				continue
+					return label != "" // stop at the test: phase 2 continues from the nil edge
+				}})
+			// phase 2: lookups on another source reachable after such an edge
+			for _, nt := range nilTargets {
+				walk(point{nt, 0}, walkOpts{visit: func(i ssa.Instruction, t *tracker) bool {
+					if i == ssa.Instruction(k1) {
+						return true
+					}
+					k2, ok := i.(*ssa.Call)
+					if !ok || !isLookupCall(k2) || reported[k2] {
+						return false
+					}
+					r1, r2 := lookupRecv(k1), lookupRecv(k2)
+					if r1 != nil && r2 != nil && sameValue(r1, r2) {
+						return false
+					}
+					reported[k2] = true
+					o.add(fn, fmt.Sprintf("chained lookup %s.Get after a nil result", accessPath(r2)), c.instrPos(k2), false,
+						fmt.Sprintf("%s.Get is consulted when %s.Get returned nil, but that nil may be a tombstone (or a Merge resolved without the older sections): a deleted key resurfaces, unlike on the snapshot path",
+							accessPath(r2), accessPath(r1)))
+					return false
+				}})
 			}
-			cmp, ok := iff.Cond.(*ssa.BinOp)
-			if !ok || (cmp.Op != token.EQL && cmp.Op != token.NEQ) || !isNilConst(cmp.Y) {
-				continue
-			}
-			k1 := derivesFromK1(cmp.X)
-			if k1 == nil {
-				continue
-			}
-			nilSucc := b.Succs[0]
-			if cmp.Op == token.NEQ {
-				nilSucc = b.Succs[1]
-			}
-			if len(nilSucc.Preds) != 1 {
-				continue
-			}
-			// further lookups control-dependent on the nil result
-			eachInstr(f, func(i ssa.Instruction) {
-				k2, ok := i.(*ssa.Call)
-				if !ok || !isLookupCall(k2) || k2 == k1 || !nilSucc.Dominates(k2.Block()) {
-					return
-				}
-				r1, r2 := lookupRecv(k1), lookupRecv(k2)
-				if r1 != nil && r2 != nil && sameValue(r1, r2) {
-					return
-				}
-				// report once per (k2): only for the nearest controlling test
-				if idom := immediateNilTest(f, k2, derivesFromK1); idom != b {
-					return
-				}
-				o.add(fn, fmt.Sprintf("chained lookup %s.Get after a nil result", accessPath(r2)), c.instrPos(k2), false,
-					fmt.Sprintf("%s.Get is consulted when %s.Get returned nil, but that nil may be a tombstone (or a Merge resolved without the older sections): a deleted key resurfaces, unlike on the snapshot path",
-						accessPath(r2), accessPath(r1)))
-			})
 		}
 	}
 	return o.list
-}
-
-// immediateNilTest finds the closest dominating If block testing a k1-derived value for nil.
-func immediateNilTest(f *ssa.Function, k2 *ssa.Call, derives func(ssa.Value) *ssa.Call) *ssa.BasicBlock {
-	var best *ssa.BasicBlock
-	for _, b := range f.Blocks {
-		iff, ok := b.Instrs[len(b.Instrs)-1].(*ssa.If)
-		if !ok {
-			continue
-		}
-		cmp, ok := iff.Cond.(*ssa.BinOp)
-		if !ok || (cmp.Op != token.EQL && cmp.Op != token.NEQ) || !isNilConst(cmp.Y) || derives(cmp.X) == nil {
-			continue
-		}
-		nilSucc := b.Succs[0]
-		if cmp.Op == token.NEQ {
-			nilSucc = b.Succs[1]
-		}
-		if len(nilSucc.Preds) != 1 || !nilSucc.Dominates(k2.Block()) {
-			continue
-		}
-		if best == nil || best.Dominates(b) {
-			best = b
-		}
-	}
-	return best
 }
 
 func ruleTomb2(c *Ctx) []*Ob {
